@@ -258,3 +258,121 @@ def commands_with_opcode(subs, opcode):
             if body[k] == opcode:
                 out.append(list(body[k:k + 7]))
     return out
+
+
+# ---- object histories at subroutine level: encode, edit in place, encode again ------------------
+
+import copy as _copy
+
+ENCODERS = ["bytes(sub)", "sub.__bytes__()", "join(sub.cstructs)", "SubroutineMessage(sub)"]
+
+
+def encode_via(sub, how):
+    """(bytes as list or None, exception class or None) through one public encoding route"""
+    from netqasm.backend.messages import SubroutineMessage
+    try:
+        if how == "bytes(sub)":
+            b = bytes(sub)
+        elif how == "sub.__bytes__()":
+            b = sub.__bytes__()
+        elif how == "join(sub.cstructs)":
+            b = b"".join(bytes(c) for c in sub.cstructs)
+        else:
+            b = bytes(SubroutineMessage(sub))[1:]
+        return list(b), None
+    except Exception as e:
+        return None, type(e).__name__
+
+
+def operand_bad(kind, oj):
+    for path, part in parts_of(kind):
+        k, ix = path
+        v = oj[k] if ix is None else oj[k][ix]
+        if not in_range_part(part, v):
+            return True
+    return False
+
+
+def content_of(sub):
+    """(instruction JSON list, app id, True if some operand / the app id is unrepresentable)"""
+    js, bad = [], False
+    for i in sub.instructions:
+        j = H.instr_to_json(i)
+        js.append(j)
+        for kind, oj in zip(H.shape_of(type(i)), j["o"]):
+            bad = bad or operand_bad(kind, oj)
+    app = sub.app_id
+    bad = bad or not (isinstance(app, int) and 0 <= app <= 65535)
+    return js, app, bad
+
+
+def bad_or_good_operand(kind, rng, p_bad):
+    oj = base_operand_json(kind, rng)
+    if rng.random() < p_bad:
+        cands = [(path, part) for path, part in parts_of(kind) if part != "bank"]
+        path, part = rng.choice(cands)
+        oj = set_part(oj, path, rng.choice(JUST[part] + FAR[part][:4]))
+    return oj
+
+
+def new_instr(fname, rng, p_bad):
+    c = rng.choice(H.flavour_classes(fname))
+    ops = [bad_or_good_operand(k, rng, p_bad / max(1, len(H.shape_of(c)))) for k in H.shape_of(c)]
+    return build_direct(c, ops)
+
+
+def edit_subroutine(sub, fname, rng):
+    """one in-place edit of a Subroutine object; returns its description"""
+    from harness import text as X
+    from netqasm.lang import operand as op
+    instrs = sub.instructions
+    kind = rng.choice(["attr", "attr", "attr", "operand-inplace", "append", "insert", "setitem", "app_id",
+                       "instantiate"])
+    with_ops = [k for k, i in enumerate(instrs) if H.shape_of(type(i))]
+    if kind == "attr" and with_ops:
+        k = rng.choice(with_ops)
+        inst = instrs[k]
+        shape = H.shape_of(type(inst))
+        j = rng.randrange(len(shape))
+        oj = bad_or_good_operand(shape[j], rng, 0.75)
+        via = rng.choice(X.setter_aliases(type(inst))[j])
+        setattr(inst, via, H.operand_from_json(oj))
+        return {"edit": "attr", "instr": k, "via": via, "operand": oj}
+    if kind == "operand-inplace":
+        cands = [(k, j) for k, i in enumerate(instrs) for j, o in enumerate(i.operands)
+                 if isinstance(o, (op.ArrayEntry, op.ArraySlice))]
+        if cands:
+            k, j = rng.choice(cands)
+            o = instrs[k].operands[j]
+            what = rng.choice(["address"] + (["index"] if isinstance(o, op.ArrayEntry) else ["start", "stop"]))
+            if what == "address":
+                v = rng.choice(JUST["addr"] + FAR["addr"][:3] + [5])
+                o.address = op.Address(v)
+            else:
+                v = rng.choice([16, 17, 255, -1, 3])
+                setattr(o, what, op.Register(RegisterName.R, v))
+            return {"edit": "operand-inplace", "instr": k, "slot": j, "attr": what, "value": v}
+    if kind in ("append", "insert", "setitem") or not instrs:
+        ni = new_instr(fname, rng, 0.75)
+        if kind == "insert" and instrs:
+            k = rng.randrange(len(instrs) + 1)
+            instrs.insert(k, ni)
+        elif kind == "setitem" and instrs:
+            k = rng.randrange(len(instrs))
+            instrs[k] = ni
+        else:
+            k = len(instrs)
+            instrs.append(ni)
+        return {"edit": kind, "at": k, "instr": H.instr_to_json(ni)}
+    app = rng.choice([65535, 65536, 70000, 2 ** 32 + 4464, 7])
+    if kind == "instantiate":
+        sub.instantiate(app)
+        return {"edit": "instantiate", "app_id": app}
+    sub.app_id = app
+    return {"edit": "app_id", "app_id": app}
+
+
+def fresh_copy(sub):
+    from netqasm.lang.subroutine import Subroutine
+    return Subroutine(instructions=[_copy.deepcopy(i) for i in sub.instructions], app_id=sub.app_id,
+                      netqasm_version=tuple(sub.netqasm_version))
